@@ -270,29 +270,32 @@ static int unhex(const char* h, char* o, size_t cap) {
 static void status_lines(const char* path, const char* pfx) {     /* Uid:/Gid:/Groups: of a /proc/<pid>/status style file */
   FILE* f = fopen(path, "re"); char l[1024];
   if (!f) { fprintf(out, "%s missing\n", pfx); return; }
-  while (fgets(l, sizeof l, f)) if (!strncmp(l, "Uid:", 4) || !strncmp(l, "Gid:", 4) || !strncmp(l, "Groups:", 7)) {
+  while (fgets(l, sizeof l, f)) if (!strncmp(l, "Uid:", 4) || !strncmp(l, "Gid:", 4) || !strncmp(l, "Groups:", 7) ||
+                                    !strncmp(l, "Cwd:", 4) || !strncmp(l, "Stat:", 5)) {
     char* q; for (q = l; *q; q++) if (*q == '\t' || *q == '\n') *q = ' ';
     fprintf(out, "%s %s\n", pfx, l);
   }
   fclose(f);
 }
-/* ids <setuid 0|1> <uid> <setgid 0|1> <gid>: credentials as seen from inside the child.  The unprivileged child cannot exec
+/* ids <flags> <uid> <gid> <cwd|->: flags = any combination of the accepted uv_process_flags bits (incl. the Windows-only
+ * ones Unix accepts and ignores); credentials, session/process group and cwd as seen from inside the child.  The unprivileged child cannot exec
  * the harness in its private directory, so /bin/sh runs grep on /proc/self/status into an inherited descriptor. */
 static void do_ids(char** w) {
   uv_process_options_t opt; uv_stdio_container_t sc[3]; char rp[1024]; int rf, rc;
-  char* args[4] = { "sh", "-c", "grep -E '^(Uid|Gid|Groups):' /proc/self/status", NULL };
+  char* args[4] = { "sh", "-c", "grep -E '^(Uid|Gid|Groups):' /proc/self/status; echo \"Cwd: $(pwd -P)\"; echo \"Stat: $(cat /proc/self/stat)\"", NULL };
   snprintf(rp, sizeof rp, "%s/ids", tmpdir);
   rf = open(rp, O_RDWR | O_CREAT | O_TRUNC | O_CLOEXEC | O_NOFOLLOW, 0600);
   if (rf < 0) { fprintf(out, "bad-op\nend\n"); return; }
   sc[0].flags = UV_IGNORE; sc[1].flags = UV_INHERIT_FD; sc[1].data.fd = rf; sc[2].flags = UV_IGNORE;
   memset(&opt, 0, sizeof opt); opt.file = "/bin/sh"; opt.args = args; opt.exit_cb = exit_cb; opt.stdio = sc; opt.stdio_count = 3;
-  if (atoi(w[1])) { opt.flags |= UV_PROCESS_SETUID; } opt.uid = atoi(w[2]);
-  if (atoi(w[3])) { opt.flags |= UV_PROCESS_SETGID; } opt.gid = atoi(w[4]);
+  opt.flags = (unsigned) atoi(w[1]) & 0xffu; opt.uid = atoi(w[2]); opt.gid = atoi(w[3]);
+  if (strcmp(w[4], "-")) opt.cwd = w[4];
   status_lines("/proc/self/status", "P");
+  { char cwd[1024]; fprintf(out, "P proc %d %d %d\nP cwd %s\n", (int) getpid(), (int) getsid(0), (int) getpgrp(), getcwd(cwd, sizeof cwd) ? cwd : "?"); }
   ncb = 0; nprocs = 1; cbcount[0] = 0;
   rc = spawn_checked(loop, &procs[0], &opt);
   pids[0] = rc == 0 ? uv_process_get_pid(&procs[0]) : -1;
-  fprintf(out, "spawn %s active=%d\n", rc == 0 ? "0" : uv_err_name(rc), uv_is_active((uv_handle_t*) &procs[0]));
+  fprintf(out, "spawn %s active=%d pid=%d\n", rc == 0 ? "0" : uv_err_name(rc), uv_is_active((uv_handle_t*) &procs[0]), (int) pids[0]);
   if (rc == 0) { run_until(1, 10000); abandon(1); } else uv_close((uv_handle_t*) &procs[0], on_close);
   uv_run(loop, UV_RUN_DEFAULT);
   close(rf);
@@ -302,7 +305,7 @@ static void do_ids(char** w) {
   fprintf(out, "end\n");
 }
 
-/* opts <det 0|1> <cwd|-> <env: inherit | x<hex k=v>,x<hex>,... | none> <file: abs|argv0|bare> <xhexarg>*
+/* opts <flags (bits 2..7)> <cwd|-> <env: inherit | x<hex k=v>,x<hex>,... | none> <file: abs|argv0|bare> <xhexarg>*
  * `@` at the start of an env value PATH=@ stands for the directory of the harness binary. */
 static void do_opts(char** w, int nw) {
   uv_process_options_t opt; char rp[1024]; char* args[64]; char* env[64]; static char store[64][512]; int ns = 0, na = 0, ne = 0, rc, i;
@@ -327,7 +330,7 @@ static void do_opts(char** w, int nw) {
     env[ne] = NULL; opt.env = env;
   }
   opt.args = args; opt.exit_cb = exit_cb;
-  if (atoi(w[1])) opt.flags |= UV_PROCESS_DETACHED;
+  opt.flags = (unsigned) atoi(w[1]) & 0xfcu;
   if (strcmp(w[2], "-")) opt.cwd = w[2];
   fprintf(out, "P proc %d %d %d\nP exe %s\nP dir %s\n", (int) getpid(), (int) getsid(0), (int) getpgrp(), self, dir);
   { char cwd[1024]; fprintf(out, "P cwd %s\n", getcwd(cwd, sizeof cwd) ? cwd : "?"); }
